@@ -216,7 +216,9 @@ def gcc_confirm(items, res: Result, tool="gcc"):
             continue
         exp = {lab for lab, val in expected_for(v).items() if val}
         if o["true"] != exp:
-            raise core.HarnessError(f"model disagrees with {tool} on a silent case: {mx.render(e)} macros={macro_defs(m)} model={mx.value_literal(v)} {tool}_true={sorted(o['true'])}")
+            res.oracle_disagreement(f"model disagrees with {tool} on a silent case: {mx.render(e)} macros={macro_defs(m)} model={mx.value_literal(v)} {tool}_true={sorted(o['true'])}")
+            ok.append(False)
+            continue
         res.extra[f"{tool}_confirmed_model"] = res.extra.get(f"{tool}_confirmed_model", 0) + 1
         ok.append(True)
     return ok
